@@ -85,6 +85,26 @@ theorem fill_terminates (d : Desc) (gi : GenInfo) (rk : List Nat) (S : Nat → B
     (by omega) (by omega) hfuel
   exact ⟨g1, fun v rg' h => by rw [(g2 v rg' h).1]; exact h0⟩
 
+/-- **depth discipline**: under the guard, `FillRandom` leaves the generator's depth counters exactly as it found them
+(for every stream; nothing to show when the run reports a descriptor fault) -/
+theorem fill_preserves_depth (d : Desc) (gi : GenInfo) (rk : List Nat) (S : Nat → Bool) (hcl : d.closed S = true)
+    (hg : d.fillGuard gi rk S = true) (ty : Nat) (hS : S ty = true) (hty : (d.get? ty).isSome = true)
+    (fuel : Nat) (hf : fillFuel d ≤ fuel) (src : Nat → Nat) (v : Val) (rg' : RG)
+    (h : fillRandom d gi fuel ty src = .ok (v, rg')) :
+    rg'.cur = (newRG src).cur ∧ rg'.maxDepth = (newRG src).maxDepth := by
+  simp only [Desc.fillGuard, Bool.and_eq_true] at hg
+  obtain ⟨h0, h1, h2⟩ := newRG_depth src
+  have hb : rkAt rk ty ≤ d.insts.size := by
+    cases hg' : d.get? ty with
+    | none => simp [hg'] at hty
+    | some inst => simpa using Desc.allOnI_get hg.1.1 hg' hS
+  have hfuel : (newRG src).maxDepth * (d.insts.size + 1) + rkAt rk ty + 1 ≤ fuel := by
+    have : (newRG src).maxDepth * (d.insts.size + 1) ≤ 5 * (d.insts.size + 1) := Nat.mul_le_mul_right _ h2
+    have e : fillFuel d = (5 + 3) * (d.insts.size + 1) := rfl
+    omega
+  exact (fillTL1_term d gi rk S hcl hg.1.1 hg.1.2 hg.2 fuel (newRG src).maxDepth ty [] (newRG src) hS
+    (by omega) (by omega) hfuel).2 v rg' h
+
 /-- the reason of the third counter-example, in one line: at the limit, an increase followed by a decrease lowers the depth -/
 theorem saturated_increase_leaks (rg : RG) (h : rg.cur = rg.maxDepth) (hp : 0 < rg.cur) : rg.inc.dec.cur = rg.cur - 1 := by
   have e : rg.inc = rg := by unfold RG.inc; rw [if_neg (by simpa using h)]
